@@ -36,7 +36,10 @@ func VerifC02Graph() {
 				free = append(free, k)
 			}
 		}
-		k := free[verifChoose("name-rank", len(free))]
+		k := free[0] // alldags: names in rank order (the labelled DAGs already cover every relabelling)
+		if verifBound("alldags", 0) != 1 {
+			k = free[verifChoose("name-rank", len(free))]
+		}
 		used[k] = true
 		names[i] = sorted[k]
 	}
@@ -48,6 +51,13 @@ func VerifC02Graph() {
 		for i := 0; i < n; i++ {
 			if verifBound("dagonly", 0) == 1 && i >= j {
 				continue // only edges from lower to higher index: acyclic by construction
+			}
+			if verifBound("alldags", 0) == 1 {
+				// every labelled DAG exactly once: edges in any direction, a relation is abandoned as
+				// soon as an edge closes a cycle (i already depends on j, transitively)
+				if i == j || vGraphReaches(dep, i, j, n) {
+					continue
+				}
 			}
 			if verifChoose("dep", 2) == 1 {
 				dep[j][i] = true
@@ -86,6 +96,9 @@ func VerifC02Graph() {
 	} else {
 		verifReach("acyclic")
 		verifAssert(err == nil, "C02.acyclic-graph-accepted")
+		if verifBound("acceptonly", 0) == 1 {
+			return // large runs that only decide acceptance
+		}
 		pos := func(name string) int {
 			for p := range jt {
 				if jt[p].Name == name {
@@ -116,6 +129,29 @@ func VerifC02Graph() {
 			verifReach("fan-in")
 		}
 	}
+}
+
+// vGraphReaches: does task `from` depend (transitively) on task `to` in the relation built so far?
+func vGraphReaches(dep [][]bool, from, to, n int) bool {
+	seen := make([]bool, n)
+	stack := []int{from}
+	for len(stack) > 0 {
+		x := stack[len(stack)-1]
+		stack = stack[:len(stack)-1]
+		if x == to {
+			return true
+		}
+		if seen[x] || dep[x] == nil {
+			continue
+		}
+		seen[x] = true
+		for y := 0; y < n; y++ {
+			if dep[x][y] {
+				stack = append(stack, y)
+			}
+		}
+	}
+	return false
 }
 
 // VerifC18Reserved: the variable name reserved for job identity is refused, every other name is
